@@ -195,10 +195,28 @@ for key, (otype, ostruct, method, pub, msg, hcfield) in CALLS.items():
     rm = re.search(r"if cmd\.\w+ == \"\" && cmd\.(\w+) \{", b)
     if lm and rm:
         decoded.append((rm.group(1), lm.group(1)))
+    # value guards: a condition on the value of a field (beyond pointer presence) that decides whether
+    # it is copied / restored. One side dropping a value the other side keeps is a lost value.
+    def guards(body, var_re, skip_routing):
+        out = []
+        for mm in re.finditer(r"\bif ([^{\n]*) \{", body):
+            cond = mm.group(1)
+            if skip_routing and re.search(r'== "" && ' + var_re + r"\.\w+\s*$", cond):
+                continue  # the all-users switch
+            for conj in cond.split("&&"):
+                conj = conj.strip()
+                fm = re.search(var_re + r"\.(\w+)", conj)
+                if not fm:
+                    continue
+                kind = "nonnil" if re.fullmatch(var_re + r"\.\w+ != nil", conj) else "value:" + re.sub(r"\s+", " ", conj)
+                out.append((fm.group(1), kind))
+        return sorted(set(out))
+    dguards = guards(b, r"\bcmd", True)
+    eguards = guards(pbody, r"\bopts", False)
     proto_msg = re.search(r"message %s \{(.*?)\n\}" % msg, proto_src, re.S).group(1)
     proto_fields = re.findall(r"^\s*(?:repeated\s+)?[\w\.]+\s+(\w+)\s*=\s*\d+;", proto_msg, re.M)
     result[key] = dict(setters=sl, encoded=sorted(set(encoded)), decoded=sorted(set(decoded)),
-                       fields=struct_fields[ostruct], proto=proto_fields)
+                       fields=struct_fields[ostruct], proto=proto_fields, dguards=dguards, eguards=eguards)
 
 
 def coq_pairs(ps):
@@ -220,6 +238,10 @@ for key in ("sub", "unsub", "disc", "refresh"):
     out.append("Definition %s_encoded : list (string * string) := %s." % (key, coq_pairs(r["encoded"])))
     out.append("(* (control message field, option field restored from it on the receiving node) *)")
     out.append("Definition %s_decoded : list (string * string) := %s." % (key, coq_pairs(r["decoded"])))
+    out.append("(* (control message field, guard) on the receiving side; nonnil = pointer presence only *)")
+    out.append("Definition %s_decode_guards : list (string * string) := %s." % (key, coq_pairs(r["dguards"])))
+    out.append("(* (option field, guard) on the sending side *)")
+    out.append("Definition %s_encode_guards : list (string * string) := %s." % (key, coq_pairs(r["eguards"])))
     out.append("Definition %s_struct_fields : list string := %s." % (key, coq_strs(r["fields"])))
     out.append("Definition %s_proto_fields : list string := %s." % (key, coq_strs(r["proto"])))
     out.append("")
